@@ -73,6 +73,24 @@ Theorem C13_idempotent_needs_side_condition :
   = Ok [(VStr [97%N], VList [VInt 0])].
 Proof. vm_compute. reflexivity. Qed.
 
+(* ---- associativity, partial ----
+   Proved: when both groupings succeed they have the same key order (a's keys, b's new keys, c's new keys).
+   NOT proved: equality of the values and agreement of the two groupings on raising (conjecture: merge is
+   associative including the TypeError, for well-formed trees; it needs Python == to be an equivalence on
+   all values for the list de-duplication, which this development proves only for hashable values).
+   Checked instead: the real merge_data_trees and the model agree with themselves on both groupings for
+   every triple of trees up to 2 nodes, and random triples beyond, under all four flag settings (clause
+   merge_assoc of the correspondence; no counterexample, in particular none through TypeError). *)
+Theorem C13_merge_assoc_partial : forall ml ms a b c ab l bc r,
+  hashable_keys a -> hashable_keys b -> hashable_keys c ->
+  merge ml ms a b = Ok ab -> merge ml ms ab c = Ok l ->
+  merge ml ms b c = Ok bc -> merge ml ms a bc = Ok r ->
+  keys l = keys r /\
+  keys l = keys a ++ filter (fun k => negb (has k a)) (keys b)
+                  ++ filter (fun k => negb (has k a) && negb (has k b)) (keys c).
+Proof. exact merge_assoc_keys. Qed.
+Print Assumptions C13_merge_assoc_partial.
+
 (* ---- arguments untouched: the model returns its arguments as the after-snapshots;
    the code half is the correspondence's comparison of deep copies ---- *)
 Theorem C13_args_unchanged : forall ml ms a b,
